@@ -1,5 +1,6 @@
 """C06 — quorum decisions follow the votes (QuorumSensing / EmergencyQuorum)."""
 import contextlib
+import copy
 import io
 import itertools
 import json
@@ -380,12 +381,182 @@ def _dyadic(x):
     return d <= 1024 and d & (d - 1) == 0
 
 
+# ---------------------------------------------------------------------------------------------------------------
+# numbers that are not finite (cases marked "x": one run_vote on a fresh instance).  In a case a non-finite number is
+# written as a string float() accepts ("nan", "inf", "-inf", "NaN", "Infinity" ...): weights and reliabilities are
+# converted before they are assigned, a payload confidence is handed to the quorum as written (it calls float()).
+NONFIN = ("nan", "inf", "-inf")
+
+
+def xfloat(v):
+    return float(v)
+
+
+def xcls(v):
+    """A number of a case / of a report as an exact value: Fraction, or "nan" / "inf" / "-inf"."""
+    if isinstance(v, Fraction):
+        return v
+    if isinstance(v, str) and v in NONFIN:
+        return v
+    f = float(v)
+    if f != f:
+        return "nan"
+    if f in (math.inf, -math.inf):
+        return "inf" if f > 0 else "-inf"
+    return Fraction(f)
+
+
+def xenc(v):
+    """JSON-able spelling of a float read from the implementation."""
+    c = xcls(v)
+    return c if isinstance(c, str) else float(v)
+
+
+def is_fin(v):
+    return v is None or not isinstance(xcls(v), str)
+
+
+def nonfinite_numbers(case):
+    """Does the single-vote case hold a number that is not finite?"""
+    return not (is_fin(case["thr"]) and all(is_fin(v["w"]) and is_fin(v["rel"]) and is_fin(v["c"]) for v in case["voters"]))
+
+
+def coq_xq(v):
+    c = xcls(v)
+    return {"nan": "XNaN", "inf": "XPInf", "-inf": "XNInf"}[c] if isinstance(c, str) else f"(XFin {cq(c)})"
+
+
+def xq_obs(v):
+    c = xcls(v)
+    if isinstance(c, str):
+        return [{"inf": 1, "-inf": 2, "nan": 3}[c], 0, 1]
+    return [0, c.numerator, c.denominator]
+
+
+def x_add(a, b):
+    if "nan" in (a, b) or {a, b} == {"inf", "-inf"}:
+        return "nan"
+    for i in ("inf", "-inf"):
+        if i in (a, b):
+            return i
+    return a + b
+
+
+def x_neg(a):
+    return {"nan": "nan", "inf": "-inf", "-inf": "inf"}[a] if isinstance(a, str) else -a
+
+
+def x_mul(a, b):
+    if "nan" in (a, b):
+        return "nan"
+    if isinstance(a, str) or isinstance(b, str):
+        sa = (1 if a == "inf" else -1) if isinstance(a, str) else (a > 0) - (a < 0)
+        sb = (1 if b == "inf" else -1) if isinstance(b, str) else (b > 0) - (b < 0)
+        return "nan" if sa * sb == 0 else ("inf" if sa * sb > 0 else "-inf")
+    return a * b
+
+
+def x_lt(a, b):
+    if "nan" in (a, b) or a == b:
+        return False
+    if a == "-inf" or b == "inf":
+        return True
+    if a == "inf" or b == "-inf":
+        return False
+    return a < b
+
+
+def x_ballot(case):
+    """(kind, weight, confidence, failed) per voter, exact (Fraction / "nan" / "inf" / "-inf")."""
+    out = []
+    for v in case["voters"]:
+        if v["act"] in FAILED:
+            out.append(("A", xcls(v["w"]), Fraction(0), True))
+        else:
+            out.append((KIND[v["act"]], x_mul(xcls(v["w"]), xcls(v["rel"])),
+                        xcls(v["c"]) if v["c"] is not None else Fraction(1), False))
+    return out
+
+
+def x_thr(case, default):
+    t = case["thr"]
+    if t is None:
+        return Fraction(default)
+    t = xcls(t)
+    return t if isinstance(t, str) or t != 0 else Fraction(default)      # nan and inf are truthy
+
+
+def x_deciding(case):
+    """Only for the SKIP rule of non-finite cases (never a verdict): the quantity the ratio strategies compare with
+    their threshold, in exact extended arithmetic -> (quantity, threshold) or None (head-count strategies)."""
+    s = "threshold" if case.get("emergency") else case["strategy"]
+    bl = x_ballot(case)
+    if s in ("weighted", "confidence"):
+        def counted(c):
+            return s == "weighted" or (c != "nan" and not x_lt(c, D03))
+        p = b = Fraction(0)
+        for (k, w, c, _f) in bl:
+            if k == "P" and counted(c):
+                p = x_add(p, x_mul(w, c))
+            if k == "B" and counted(c):
+                b = x_add(b, x_mul(w, c))
+        tot = x_add(p, b)
+        if tot == 0:
+            ratio = Fraction(0)
+        elif isinstance(p, str) or isinstance(tot, str):
+            ratio = "nan" if "nan" in (p, tot) or (isinstance(p, str) and isinstance(tot, str)) else \
+                (Fraction(0) if isinstance(tot, str) else p)
+        else:
+            ratio = p / tot
+        return ratio, x_thr(case, D05)
+    if s == "bayesian":
+        def clamp(a):
+            if isinstance(a, str):
+                return Fraction(1) if a == "inf" else Fraction(0)
+            return _clamp(a)
+        pp = pb = Fraction(1, 2)
+        half = Fraction(1, 2)
+        for (k, w, c, _f) in bl:
+            if k not in "PB":
+                continue
+            lik = x_add(half, x_mul(c, Fraction(2, 5)))
+            f = clamp(x_add(half, x_mul(x_add(lik, -half), w)))
+            g = clamp(x_add(half, x_mul(x_add(x_add(Fraction(1), x_neg(lik)), -half), w)))
+            if k == "P":
+                pp, pb = pp * f, pb * g
+            else:
+                pb, pp = pb * f, pp * g
+        return (pp / (pp + pb) if pp + pb > 0 else half), x_thr(case, D05)
+    return None
+
+
+def x_skip(case):
+    """A non-finite case is skipped when a FINITE deciding quantity is within 1e-9 of a finite threshold and binary64
+    need not be exact there (Bayesian products; everything else is generated on the dyadic grid)."""
+    d = x_deciding(case)
+    if d is None:
+        return False
+    q, t = d
+    if isinstance(q, str) or isinstance(t, str):
+        return False
+    s = case["strategy"]
+    if q == t:
+        return s == "bayesian"
+    return abs(q - t) < EPS
+
+
+def neutral(case):
+    """The same ballot with every weight, reliability and confidence replaced by 1.0: what the strategies that count
+    heads (MAJORITY, SUPERMAJORITY, UNANIMOUS, THRESHOLD) decide on."""
+    return {**case, "voters": [dict(v, w=1.0, rel=1.0, c=(1.0 if v["c"] is not None else None)) for v in case["voters"]]}
+
+
 class C06(Check):
     PID = "C06"
     HEADER = "From Verif Require Import C06.Model."
     RUN = "run_case"
-    CASE_TYPE = "tcase"
-    N_QUICK = 2600
+    CASE_TYPE = "anycase"
+    N_QUICK = 2300
     N_THOROUGH = 30000
     RULE = ("a case is a HISTORY on one QuorumSensing/EmergencyQuorum instance: 1-4 run_vote calls with add_agent, remove_agent, "
             "set_agent_weight, set_strategy, min_voters assignment, update_reliability, update_all_reliability, assignment of the "
@@ -438,6 +609,22 @@ class C06(Check):
             "empty colony). Exhaustive: every assignment of {permit,block,abstain,defer,failed} to 1..3 (quick) / 1..5 (thorough) "
             "voters x strategies x thresholds x two weight/confidence patterns. Cases whose exact-rational decision margin is "
             "below 1e-9 are skipped and counted unless binary64 is exact on them (count ratios; dyadic grid). "
+            "COPIES: a step may copy an object (copy.copy; copy.deepcopy is tried and, if it yields an object, that object is asked "
+            "at once) and every later step is addressed to the original or to a copy; the snapshot a vote is judged by holds the "
+            "configuration THE CALLER GAVE the asked object (constructor arguments, set_strategy / min_voters assignments addressed to it; "
+            "a copy starts with its original's), not what the object says about itself; exhaustive: min_voters = k (constructor or "
+            "assigned on the live object, the only way for an EmergencyQuorum), copy / deepcopy, then copy and original asked with k-1 "
+            "and with k permit ballots (the others abstain or fail), also after min_voters was re-assigned on the other of the two, "
+            "7 strategies + EmergencyQuorum, 3 (quick) / 2..4 (thorough) voters; 1000 votes, copy, a vote on the copy, learning "
+            "from `the last result` through both objects (the shared result list is re-bound by the object that outgrows it); random: "
+            "histories as above with one or two copies (of copies), operations on any of them, min_voters 0..n, ending with a vote "
+            "with few active members on every object. "
+            "NON-FINITE NUMBERS (cases marked x: ONE run_vote on a fresh instance): threshold / emergency_threshold, member weights, "
+            "reliabilities and payload confidences (handed over as float or as a string float() accepts) may be nan, inf, -inf; "
+            "exhaustive: every assignment of {permit, block, abstain} to 1..2 voters (quick: plus 3-voter ballots in which nobody or "
+            "everybody permits; thorough: 1..3 voters) x 7 strategies + EmergencyQuorum x one number replaced by nan / inf (a weight, "
+            "a confidence, thorough: a reliability, or the threshold); random: 1..5 voters, every number replaced with probability "
+            "0.15..0.5; a vote is skipped when its finite deciding quantity is within 1e-9 of a finite threshold (Bayesian only). "
             "non-trivial = at least two different vote kinds, a failed voter or an exact tie; distinct by case content")
     LEVEL_TEXT = ("Coq theorems over all ballots (any number of voters), rational weights/confidences >= 0 and thresholds in the stated "
                   "ranges about a hand-written Gallina model of _aggregate_votes, the seven aggregators, vote collection and "
@@ -455,7 +642,16 @@ class C06(Check):
                   "says how long each member's agent needs; timeout_seconds assigned at will): delays and timeout_seconds never change an outcome or "
                   "the instance (a timed history is its untimed history), every vote aggregates exactly one ballot per current member cast in that "
                   "call however slow the member, with delays >= 0 no answer is outstanding when a call is over, and the vote after any timed call "
-                  "is decided as if that call had not happened. The model is tied to the code by evaluating it "
+                  "is decided as if that call had not happened; over all histories of SEVERAL OBJECTS (an instance and its copy.copy copies, "
+                  "which share one colony; copy.deepcopy raises): every vote on any object is the aggregation of the current colony's ballot under "
+                  "the configuration that object's caller gave it - computed from the operations alone: a copy starts with its original's strategy, "
+                  "threshold and min_voters, only set_strategy / min_voters assignments addressed to an object change its configuration - so a vote "
+                  "with fewer permit/block ballots than the configured min_voters is never PERMIT on any object, a fresh copy answers every proposal "
+                  "as its original does, and a world that is never copied is the single instance; and over ballots whose numbers are NOT FINITE "
+                  "(weights, reliabilities, confidences, threshold in Q + {nan, +inf, -inf}, IEEE comparisons): no permit vote => never PERMIT for "
+                  "every number and every threshold that is not negative (nan and +inf included), a nan / +inf threshold is never exceeded, below "
+                  "min_voters is never PERMIT, counts are exact, the head-counting strategies never read a weight or confidence, and on finite numbers "
+                  "the extended model is the rational model. The model is tied to the code by evaluating it "
                   "in Coq on every generated ballot the implementation ran.")
     LEVEL_NOTE = ("Trusts: Coq kernel+VM; the correspondence harness; exact-rational idealisation of binary64 arithmetic (cases within 1e-9 "
                   "of a decision boundary are skipped unless binary64 is exact there). Axioms: none (Print Assumptions: closed). "
@@ -463,7 +659,7 @@ class C06(Check):
                   "electorate with positive support can be BLOCK (one voter, weight 1, confidence 1, threshold 0.95: posterior 0.9); "
                   "c06_unanimous_PERMIT is stated for BAYESIAN thresholds <= 1/2, the witness is c06_unanimous_bayesian_high_threshold_refuted, "
                   "the monitor demands unanimous => PERMIT at every threshold in [0,1) and classifies exactly this failure under that signature.")
-    TECHNIQUE = "Coq proofs over Q (induction over the ballot and over the operation history, lra) + vm_compute correspondence against histories of run_vote/mutators on one real QuorumSensing instance with stub voters + per-vote metamorphic monitor"
+    TECHNIQUE = "Coq proofs over Q and Q+{nan,inf} (induction over the ballot and over the operation history of one instance and its copies, refinement of the non-finite model by the rational one, lra) + vm_compute correspondence against histories of run_vote/mutators/copies on real QuorumSensing instances with stub voters + per-vote metamorphic monitor"
     TRUSTED = ["float-vs-rational idealisation: the model computes ratios, weight*confidence sums and Bayesian products exactly over Q "
                "(Bayesian constant 0.4 as 2/5; 0.5, 0.666, 0.3 as the exact doubles); the implementation uses binary64. Cases whose exact "
                "decision margin (|ratio - threshold|, |posterior - threshold|, Bayesian clamp argument, distance of f*n from an integer) is "
@@ -474,7 +670,19 @@ class C06(Check):
                "voter agents are stubs returning a scripted ActionProtein or raising, or real BioAgents whose answers (action_type, "
                "payload) are recorded while the case runs and given to the model as that call's script: the quorum is checked against "
                "what the agents said, BioAgent.express itself (membrane, ATP, memory, mock LLM) is exercised but not modelled",
-               "NaN/inf weights, confidences and thresholds are outside the modelled domain",
+               "non-finite numbers: modelled for ONE run_vote on a fresh instance (weights, reliabilities, payload confidences, custom "
+               "threshold in Q + {nan, +inf, -inf} with IEEE-754 rules for +, *, /, <, <=, ==; signed zeros not distinguished; finite "
+               "magnitudes are small, so no finite operation overflows); histories (mutators, copies, time) are modelled over finite "
+               "numbers only. What the monitor demands of a vote with non-finite inputs: exact counts, failed voters abstain, reached <=> "
+               "PERMIT; if no input is negative: no permit vote => not PERMIT, below min_voters => ABSTAIN, a block defeats UNANIMOUS, and "
+               "the full stated criterion for the head-counting strategies with a finite threshold; a THRESHOLD / EmergencyQuorum vote "
+               "that raises ValueError / OverflowError because its threshold is nan / inf reports nothing and is not judged; nothing else "
+               "is demanded when the deciding quantity is not a finite number (the property quantifies over grids of finite numbers)",
+               "copies: copy.copy of a QuorumSensing / EmergencyQuorum is the default shallow copy (no __copy__): own plain attributes, the "
+               "SAME colony list and result list (re-bound by the object whose list exceeds 1000 entries); copy.deepcopy raises TypeError "
+               "(threading.Lock) and is modelled as creating nothing - on a tree where it yields an object the harness asks that object once "
+               "(judged by the monitor; the model then disagrees); the final observation is the shared colony read through object 0 and one "
+               "counter row per object",
                "instance state modelled: strategy, custom_threshold, min_voters, enable_reliability_tracking, colony (name, weight, "
                "reliability_score, votes_cast, correct_votes), votes of the last recorded result, the two callbacks, the three statistics "
                "counters; agent names are Bacterium_<id>; learned "
@@ -490,7 +698,10 @@ class C06(Check):
                "BaseException as abandoning the call at that voter; the console block of a non-silent instance is read with two regular "
                "expressions (counts line, QUORUM REACHED/FAILED) and ignored where they do not match"]
     ASSUMPTIONS = ["weights, reliabilities, confidences are finite and >= 0; ratio thresholds in [0,1); count thresholds >= 0 "
-                   "(0 = default, (0,1) = share of the colony, >= 1 = count)",
+                   "(0 = default, (0,1) = share of the colony, >= 1 = count); for `no permit vote => never PERMIT`, `below min_voters => "
+                   "never PERMIT`, exact counts and the head-counting criteria also nan and +inf (anything that is not negative)",
+                   "the configuration a vote is judged by is the one the caller gave the asked object: constructor arguments, set_strategy, "
+                   "min_voters assignments addressed to that object; a copy (copy.copy / copy.deepcopy) starts with its original's",
                    "unanimous => PERMIT is demanded for THRESHOLD only when the needed count does not exceed the permit votes; for BAYESIAN it is "
                    "demanded at every threshold in [0,1) and its failure for custom thresholds > 0.5 with posterior <= threshold is the known "
                    "finding C06/unanimous-bayesian-high-threshold (unopposed ballots with abstainers are demanded only for thresholds <= 0.5)",
@@ -968,6 +1179,182 @@ class C06(Check):
         case["steps"] = steps
         return case
 
+    # ------------------------------------------------------------------ copies of a live instance
+    def _copy_histories(self):
+        """A quorum configured with min_voters = k (constructor argument, or assigned on the live object - the only way
+        for an EmergencyQuorum) is copied (copy.copy / copy.deepcopy); then the COPY and the original are asked, with
+        k-1 and with k permit ballots, everybody else abstaining or failing; variant: after the copy was taken
+        min_voters is assigned on the ORIGINAL (the copy keeps k) or on the COPY (the original keeps k).
+        Every strategy and EmergencyQuorum, 3 (quick) / 2..4 (thorough) voters."""
+        out = []
+        cfgs = [(st, False) for st in STRATS] + [("threshold", True)]
+        sizes = (3,) if self.tier == "quick" else (2, 3, 4)
+        for (strat, em) in cfgs:
+            for n in sizes:
+                for k in sorted({2, n}):
+                    for how in (("live",) if em else ("ctor", "live")):
+                        for deep in (False, True):
+                            for active in (k - 1, k):
+                                for variant in (("plain",) if deep else ("plain", "original-reassigned", "copy-reassigned")):
+                                    script = [{"act": "PERMIT", "c": 1.0}] * active + \
+                                             [{"act": ("ABSTAIN", "RAISE")[i % 2], "c": None} for i in range(n - active)]
+                                    steps = [{"op": "min_voters", "k": k}] if how == "live" else []
+                                    steps.append({"op": "copy", "of": 0, "deep": deep, "script": script})
+                                    if variant == "original-reassigned":
+                                        steps.append({"op": "min_voters", "k": 1})
+                                    if variant == "copy-reassigned":
+                                        steps.append({"op": "min_voters", "k": 1, "on": 1})
+                                    if not deep:
+                                        steps.append({"op": "vote", "script": script, "on": 1})
+                                    steps.append({"op": "vote", "script": script})
+                                    thr = None
+                                    if strat == "threshold":
+                                        thr = 0.3 if em else 1          # one permit is enough for the head-count
+                                    out.append({"strategy": strat, "thr": None if em else thr, "emergency": em, "tracking": True,
+                                                "min_voters": 1 if (em or how == "live") else k, "exact": True,
+                                                "voters": [{"w": 1.0, "rel": 1.0} for _ in range(n)], "steps": steps})
+        return out
+
+    def _cap_copy_histories(self):
+        """The 1000-entry result list is SHARED by a shallow copy until one of the two outgrows it: 1000 votes, copy, a vote
+        on the copy (the 1001st entry: the copy now owns a fresh list, the original keeps the long one), learning from
+        `the last result` through either object, votes decided by what was learned."""
+        out = []
+        for (strat, first) in (("weighted", "PERMIT"), ("majority", "BLOCK")):
+            other = "BLOCK" if first == "PERMIT" else "PERMIT"
+            a = [{"act": first, "c": 1.0}, {"act": other, "c": 1.0}]
+            b = [{"act": other, "c": 1.0}, {"act": first, "c": 1.0}]
+            steps = [{"op": "vote", "script": a, "times": CAP}, {"op": "copy", "of": 0},
+                     {"op": "vote", "script": b, "on": 1},
+                     {"op": "rel_all", "decision": "permit"},             # object 0: the long list ends with the copy's vote
+                     {"op": "vote", "script": a},                         # 1002nd entry of the long list: object 0 re-binds too
+                     {"op": "vote", "script": b, "on": 1},
+                     {"op": "rel_all", "decision": "permit", "on": 1},    # the copy's own list
+                     {"op": "rel_all", "decision": "block"},
+                     {"op": "vote", "script": a, "on": 1}, {"op": "vote", "script": b}]
+            out.append({"strategy": strat, "thr": None, "min_voters": 2, "emergency": False, "tracking": True,
+                        "voters": [{"w": 1.0, "rel": 1.0}, {"w": 1.0, "rel": 1.0}], "exact": True, "steps": steps})
+        return out
+
+    def _copy_case(self, rng):
+        """A random history (as _history_case) in which the instance is copied once or twice (copy.copy, sometimes
+        copy.deepcopy) and the later operations are addressed to the original or to a copy; min_voters 0..n from the
+        start, re-assigned on one of the objects after the copy; the history ends with a vote on every object in which
+        few members are active."""
+        c = self._history_case(rng)
+        n0 = len(c["voters"])
+        if not c.get("emergency"):
+            c["min_voters"] = rng.choice([0, 1, 2, 2, 3, max(1, n0 - 1), n0])
+        for st in c["steps"]:
+            st.pop("times", None)
+        nobj = 1
+        steps = []
+        want = rng.randrange(len(c["steps"]) + 1)
+        last_script = [{"act": "PERMIT", "c": 1.0}] * n0
+
+        def copy_step():
+            nonlocal nobj
+            deep = rng.random() < 0.2
+            steps.append({"op": "copy", "of": rng.randrange(nobj), "deep": deep, "script": last_script})
+            if not deep:
+                nobj += 1
+
+        for i, st in enumerate(c["steps"]):
+            if i == want or (nobj < 3 and rng.random() < 0.1):
+                copy_step()
+            st = dict(st)
+            if nobj > 1 and rng.random() < 0.55:
+                st["on"] = rng.randrange(1, nobj)
+            if st["op"] in ("vote", "interrupt"):
+                last_script = st["script"]
+            steps.append(st)
+        if nobj == 1:
+            copy_step()
+            if nobj == 1:
+                steps.append({"op": "copy", "of": 0})
+                nobj = 2
+        if rng.random() < 0.6:
+            steps.append({"op": "min_voters", "k": rng.choice([0, 1, 2, 3]), "on": rng.randrange(nobj)})
+        if rng.random() < 0.3:
+            stg = rng.choice(STRATS)
+            steps.append({"op": "strategy", "strategy": stg, "thr": self._thr_for(rng, stg, len(last_script), c.get("exact", True)),
+                          "on": rng.randrange(nobj)})
+        # few active members: one or two permits, the others passive or failing
+        m = len(last_script)
+        few = [{"act": "PERMIT" if i < rng.choice([1, 1, 2]) else rng.choice(["ABSTAIN", "RAISE", "DEFER", "ABSTAIN", "BLOCK"]),
+                "c": rng.choice([1.0, 1.0, None])} for i in range(m)]
+        rng.shuffle(few)
+        for j in range(nobj):
+            steps.append({"op": "vote", "script": few, "on": j})
+        c["steps"] = steps
+        return c
+
+    # ------------------------------------------------------------------ numbers that are not finite
+    @staticmethod
+    def _special(rng):
+        return rng.choice(["nan", "nan", "nan", "inf", "inf", "-inf"])
+
+    def _x_case(self, rng):
+        """One run_vote on a fresh instance; threshold, weights, reliabilities and payload confidences from the dyadic
+        grid, each replaced by nan / inf / -inf with some probability (confidences spelled the ways float() accepts,
+        handed over as a string or as a float)."""
+        n = rng.choice([1, 2, 2, 3, 3, 4, 5])
+        strat = rng.choice(STRATS)
+        em = rng.random() < 0.12
+        if em:
+            strat = "threshold"
+        p = rng.choice([0.15, 0.3, 0.5])
+        style = rng.random()
+        vs = []
+        for _ in range(n):
+            act = "BLOCK" if style < 0.2 else rng.choice(["PERMIT", "PERMIT", "BLOCK", "BLOCK", "BLOCK", "ABSTAIN", "DEFER",
+                                                          "RAISE", "EXECUTE", "FAILURE", "BADCONF"])
+            if style < 0.3 and act in ("PERMIT", "EXECUTE"):
+                act = rng.choice(["BLOCK", "ABSTAIN"])
+            v = voter(act, rng.choice(GRID + [1.0, 1.0]), rng.choice(GRID[:5] + [1.0, None]), rng.choice(RELS))
+            if rng.random() < p:
+                v["w"] = self._special(rng)
+            if rng.random() < p / 3:
+                v["rel"] = self._special(rng)
+            if rng.random() < p:
+                sp = self._special(rng)
+                v["c"] = rng.choice([sp, sp, {"nan": "NaN", "inf": "Infinity", "-inf": "-Infinity"}[sp]])
+                if rng.random() < 0.5:
+                    v["as_float"] = True
+                v["c"] = xcls(v["c"]) if v.get("as_float") else v["c"]
+            vs.append(v)
+        if strat == "threshold":
+            thr = rng.choice([None, 0.25, 0.5, 1, 2, "nan", "nan", "inf", "-inf", n])
+        else:
+            thr = rng.choice([None, None, 0.25, 0.5, 0.75, "nan", "nan", "nan", "inf", "-inf", 0])
+        return {"strategy": strat, "thr": thr, "min_voters": 1 if em else rng.choice([1, 1, 1, 0, 2]), "emergency": em,
+                "voters": vs, "exact": True, "x": True}
+
+    def _x_exhaustive(self):
+        """Every assignment of {permit, block, abstain} to 1..2 voters (quick: plus three 3-voter ballots - nobody permits,
+        everybody permits) / 1..3 voters (thorough) x 7 strategies + EmergencyQuorum x ONE number that is not finite: the
+        weight or the confidence (thorough: or the reliability) of one voter = nan / inf, or the threshold = nan / inf
+        (quick, 3 voters: nan only, first and last voter)."""
+        out = []
+        cfgs = [(st, False) for st in STRATS] + [("threshold", True)]
+        quick = self.tier == "quick"
+        fields = ("w", "c") if quick else ("w", "c", "rel")
+        three = [("BLOCK",) * 3, ("PERMIT",) * 3, ("BLOCK", "ABSTAIN", "BLOCK")]
+        for (strat, em) in cfgs:
+            for n in (1, 2, 3):
+                for combo in (three if quick and n == 3 else itertools.product(["PERMIT", "BLOCK", "ABSTAIN"], repeat=n)):
+                    base = {"strategy": strat, "thr": None, "min_voters": 1, "emergency": em, "exact": True, "x": True}
+                    for val in ("nan", "inf"):
+                        out.append({**base, "thr": val, "voters": [voter(a) for a in combo]})
+                        if quick and n == 3 and val == "inf":
+                            continue
+                        for i in (sorted({0, n - 1}) if quick and n == 3 else range(n)):
+                            for f in fields:
+                                vs = [voter(a) for a in combo]
+                                vs[i][f] = val
+                                out.append({**base, "voters": vs})
+        return [c for c in out if not x_skip(c)]
+
     def gen_cases(self, rng, n):
         out = []
         skipped = 0
@@ -977,8 +1364,12 @@ class C06(Check):
         out += [c for c in timed if not self._near(c)]
         while len(out) < n:
             k = rng.random()
-            if k < 0.05:
+            if k < 0.04:
                 c = self._share_case(rng)
+            elif k < 0.09:
+                c = self._x_case(rng)
+            elif k < 0.13:
+                c = self._copy_case(rng)
             elif k < 0.27:
                 c = self._grid_case(rng, True)
             elif k < 0.40:
@@ -1036,6 +1427,9 @@ class C06(Check):
         out += [c for c in self._abort_histories() if not self._near(c)]
         out += [c for c in self._real_histories() if not self._near(c)]
         out += [c for c in self._cap_histories() if not self._near(c)]
+        out += [c for c in self._copy_histories() if not self._near(c)]
+        out += [c for c in self._cap_copy_histories() if not self._near(c)]
+        out += self._x_exhaustive()
         timed = self._timed_histories()
         self._prefetch(timed)
         out += [c for c in timed if not self._near(c)]
@@ -1112,16 +1506,21 @@ class C06(Check):
         return d
 
     def _drive_now(self, case):
-        """Run the whole history on ONE real QuorumSensing / EmergencyQuorum instance.
+        """Run the whole history on ONE real QuorumSensing / EmergencyQuorum instance AND ITS COPIES.
         -> {"votes": [(snapshot, result)], "vote_steps": [step index], "final": [...], "stats": [...], "scripts": {...}}.
-        The snapshot is the single-vote case read from the instance's public state immediately before that
-        run_vote: strategy, custom_threshold, min_voters, and for every CURRENT colony member its weight,
-        reliability_score and what its agent is scripted to do - for a REAL BioAgent (voters / added agents marked
+        The snapshot is the single-vote case the property judges the call by: the CONFIGURATION THE CALLER HAS GIVEN the
+        object that is asked (constructor arguments, then set_strategy / min_voters assignments addressed to that object;
+        a copy starts with the configuration its original had when it was copied) and, read from the object immediately
+        before that run_vote, for every CURRENT colony member its weight, reliability_score and what its agent is
+        scripted to do - for a REAL BioAgent (voters / added agents marked
         "real"): what it answered in that call.  The result of a run_vote call is what it
         returned or, when an on_quorum_* callback raised, what that callback had been handed; every other
         report of the same vote (callback arguments, the new get_vote_history() entry, the console block of a
         non-silent instance) is attached to it.  A vote step with "times": k is k consecutive run_vote calls with the
         same script; "peek" steps call the read-only accessors.
+        OBJECTS: object 0 is the instance the case constructs; a step {"op": "copy", "of": j} appends copy.copy(object j),
+        with "deep" it tries copy.deepcopy(object j) (if that yields an object it is asked the step's "script" at once and
+        then dropped); every other step is addressed to object step["on"] (default 0).
         TIME: a script entry's "delay" is how many seconds that voter's agent needs before it answers (time.sleep);
         "timeout" (constructor argument; assigned after construction for EmergencyQuorum, whose constructor fixes
         it) and the op "timeout" set timeout_seconds.  When a run_vote call returns, the harness notes which of the
@@ -1160,11 +1559,13 @@ class C06(Check):
                 q = Q.EmergencyQuorum(len(vs), budget, silent=not verbose, **kw)
                 if "timeout" in case:
                     q.timeout_seconds = case["timeout"]
+                given = {"strategy": "threshold", "thr": 0.3 if case["thr"] is None else case["thr"], "min_voters": 1}
             else:
                 if "timeout" in case:
                     kw["timeout_seconds"] = case["timeout"]
                 q = Q.QuorumSensing(len(vs), budget, strategy=Q.VotingStrategy(case["strategy"]),
                                     threshold=case["thr"], min_voters=case["min_voters"], silent=not verbose, **kw)
+                given = {"strategy": case["strategy"], "thr": case["thr"], "min_voters": case["min_voters"]}
         for p, v in zip(q.colony, vs):
             role = v.get("real")
             if role:                                          # the agent the instance built itself, or one of another role
@@ -1174,83 +1575,117 @@ class C06(Check):
                 p.agent = _Stub(p.agent.name, "RAISE", None)
             p.weight = v["w"]
             p.reliability_score = v["rel"]
-        votes, vote_steps, scripts = [], [], {}
-        hang = False
-        ncalls = 0
+        objs, givens, origin = [q], [given], ["constructed"]   # the objects, what their caller configured, where they come from
+        votes, vote_steps, scripts, copies = [], [], {}, {}
+        rows = []                # in order: ("vote", index into votes) | ("copy", deep, an object was created)
+        state = {"hang": False, "ncalls": 0}
+
+        def ask(q, given, who, si, rep, st, op):
+            """One run_vote call on object q (configured by its caller as `given`)."""
+            script = st["script"]
+            snap_voters = []
+            for k, p in enumerate(q.colony):
+                b = script[k] if k < len(script) else {"act": "RAISE", "c": None}   # beyond the script: the agent raises
+                if p.agent.inner is not None:
+                    b = {"act": "REAL", "c": None}
+                    p.agent.seen = None
+                if op == "interrupt" and k == st["k"]:
+                    b = {"act": "INTERRUPT", "c": None}
+                p.agent.act, p.agent.conf = b["act"], b["c"]
+                p.agent.delay, p.agent.call = float(b.get("delay") or 0.0), state["ncalls"]
+                snap_voters.append({"act": b["act"], "c": b["c"], "w": p.weight, "rel": p.reliability_score})
+                if b.get("delay"):
+                    snap_voters[-1]["delay"] = b["delay"]
+                if p.agent.inner is not None:
+                    snap_voters[-1]["answered_by"] = p.agent.inner.role
+            polled = list(q.colony)
+            needs = sum(p.agent.delay for p in polled)
+            snap = {"strategy": given["strategy"], "thr": given["thr"], "min_voters": given["min_voters"],
+                    "emergency": False, "voters": snap_voters,
+                    "exact": bool(case.get("exact")) and all(_dyadic(x["rel"]) for x in snap_voters)}
+            if who != "object 0":
+                snap["object"] = who
+            del calls[:]
+            before = q.get_vote_history(1)
+            last_before = before[-1] if before else None
+            console = io.StringIO()
+            args = (PROMPTS[st.get("prompt", "plain")],) + (({"urgency": "high"},) if st.get("context") else ())
+            limit = (HANG_S if self._hangs < 3 else HANG_LATER) + 2.0 * needs
+            try:
+                with self._quiet(console):
+                    r = self._call(lambda: q.run_vote(*args), limit)
+                t = _result_dict(r)
+                t["end"] = "returned"
+            except ZeroDivisionError:
+                t = {"raised": "ZeroDivisionError"}
+            except _HookError:                  # the caller gets no result; the callback got one
+                t = dict(calls[-1][1])
+                t["end"] = "callback-raised"
+            except _VoterInterrupt:
+                t = {"interrupted": True}
+            except common.Hang:
+                t = {"hang": True, "limit": limit, "needs": needs}
+                state["hang"] = True
+                self._hangs += 1
+            except Exception as e:              # noqa: any other exception that leaves run_vote is a report of its own
+                t = {"raised": type(e).__name__}
+            # whose agent has finished answering in THIS call, now that the call is over
+            done = [state["ncalls"] in p.agent.done for p in polled]
+            t["answered"] = sum(done)
+            state["ncalls"] += 1
+            for sv, p in zip(snap_voters, polled):        # what the real agents answered in this call
+                if sv["act"] == "REAL":
+                    sv.update(behaviour_of(p.agent.seen))
+            scripts[(si, rep)] = [{"act": sv["act"], "c": sv["c"]} for sv in snap_voters]
+            if "interrupted" not in t and not state["hang"]:
+                for sv, ok in zip(snap_voters, done):     # no answer by the end of the call = no ballot in this call
+                    if not ok:
+                        sv["scripted"] = sv["act"]
+                        sv["act"], sv["c"] = "LATE", None
+            t["callbacks"] = list(calls)
+            hist = q.get_vote_history(1)
+            if hist and hist[-1] is not last_before:      # the entry this call added (also beyond the 1000-entry cap)
+                t["recorded"] = _result_dict(hist[-1])
+            if verbose:
+                t["console"] = console.getvalue()
+            rows.append(("vote", len(votes)))
+            votes.append((snap, t))
+            vote_steps.append(si)
+
         for si, st in enumerate(steps_of(case)):
-            if hang:
+            if state["hang"]:
                 break
             op = st["op"]
+            if op == "copy":
+                src = st.get("of", 0)
+                if src >= len(objs) and not st.get("deep"):
+                    continue
+                src = min(src, len(objs) - 1)
+                new = self._copy_of(objs[src], bool(st.get("deep")))
+                copies[si] = new is not None
+                rows.append(("copy", int(bool(st.get("deep"))), int(new is not None)))
+                if new is None:
+                    continue
+                who = f"copy.{'deepcopy' if st.get('deep') else 'copy'} (step {si + 1}) of {origin[src] if src else 'object 0'}"
+                if st.get("deep"):
+                    # the model knows no deep copies (copy.deepcopy raises on this class): ask it once and let it go
+                    ask(new, dict(givens[src]), who, si, 0, {"script": st.get("script", [])}, "vote")
+                else:
+                    objs.append(new)
+                    givens.append(dict(givens[src]))
+                    origin.append(who)
+                continue
+            on = st.get("on", 0)
+            if on >= len(objs):
+                continue                                      # no such object (yet): nothing is done (the model: nothing)
+            q, given = objs[on], givens[on]
             if op in ("vote", "interrupt"):
                 for rep in range(int(st.get("times", 1)) if op == "vote" else 1):
-                    if hang:
+                    if state["hang"]:
                         break
                     if op == "interrupt" and not st["k"] < len(q.colony):
                         continue                              # nobody to interrupt: no call is made
-                    script = st["script"]
-                    snap_voters = []
-                    for k, p in enumerate(q.colony):
-                        b = script[k] if k < len(script) else {"act": "RAISE", "c": None}   # beyond the script: the agent raises
-                        if p.agent.inner is not None:
-                            b = {"act": "REAL", "c": None}
-                            p.agent.seen = None
-                        if op == "interrupt" and k == st["k"]:
-                            b = {"act": "INTERRUPT", "c": None}
-                        p.agent.act, p.agent.conf = b["act"], b["c"]
-                        p.agent.delay, p.agent.call = float(b.get("delay") or 0.0), ncalls
-                        snap_voters.append({"act": b["act"], "c": b["c"], "w": p.weight, "rel": p.reliability_score})
-                        if b.get("delay"):
-                            snap_voters[-1]["delay"] = b["delay"]
-                        if p.agent.inner is not None:
-                            snap_voters[-1]["answered_by"] = p.agent.inner.role
-                    polled = list(q.colony)
-                    needs = sum(p.agent.delay for p in polled)
-                    snap = {"strategy": q.strategy.value, "thr": q.custom_threshold, "min_voters": q.min_voters,
-                            "emergency": False, "voters": snap_voters,
-                            "exact": bool(case.get("exact")) and all(_dyadic(x["rel"]) for x in snap_voters)}
-                    del calls[:]
-                    before = q.get_vote_history(1)
-                    last_before = before[-1] if before else None
-                    console = io.StringIO()
-                    args = (PROMPTS[st.get("prompt", "plain")],) + (({"urgency": "high"},) if st.get("context") else ())
-                    limit = (HANG_S if self._hangs < 3 else HANG_LATER) + 2.0 * needs
-                    try:
-                        with self._quiet(console):
-                            r = self._call(lambda: q.run_vote(*args), limit)
-                        t = _result_dict(r)
-                        t["end"] = "returned"
-                    except ZeroDivisionError:
-                        t = {"raised": "ZeroDivisionError"}
-                    except _HookError:                  # the caller gets no result; the callback got one
-                        t = dict(calls[-1][1])
-                        t["end"] = "callback-raised"
-                    except _VoterInterrupt:
-                        t = {"interrupted": True}
-                    except common.Hang:
-                        t = {"hang": True, "limit": limit, "needs": needs}
-                        hang = True
-                        self._hangs += 1
-                    # whose agent has finished answering in THIS call, now that the call is over
-                    done = [ncalls in p.agent.done for p in polled]
-                    t["answered"] = sum(done)
-                    ncalls += 1
-                    for sv, p in zip(snap_voters, polled):        # what the real agents answered in this call
-                        if sv["act"] == "REAL":
-                            sv.update(behaviour_of(p.agent.seen))
-                    scripts[(si, rep)] = [{"act": sv["act"], "c": sv["c"]} for sv in snap_voters]
-                    if "interrupted" not in t and not hang:
-                        for sv, ok in zip(snap_voters, done):     # no answer by the end of the call = no ballot in this call
-                            if not ok:
-                                sv["scripted"] = sv["act"]
-                                sv["act"], sv["c"] = "LATE", None
-                    t["callbacks"] = list(calls)
-                    hist = q.get_vote_history(1)
-                    if hist and hist[-1] is not last_before:      # the entry this call added (also beyond the 1000-entry cap)
-                        t["recorded"] = _result_dict(hist[-1])
-                    if verbose:
-                        t["console"] = console.getvalue()
-                    votes.append((snap, t))
-                    vote_steps.append(si)
+                    ask(q, given, origin[on] if on else "object 0", si, rep, st, op)
                 continue
             with self._quiet(sink):
                 if op == "add":
@@ -1263,8 +1698,10 @@ class C06(Check):
                     q.set_agent_weight(agent_name(st["id"]), st["w"])
                 elif op == "strategy":
                     q.set_strategy(Q.VotingStrategy(st["strategy"]), st["thr"])
+                    given["strategy"], given["thr"] = st["strategy"], st["thr"]
                 elif op == "min_voters":
                     q.min_voters = st["k"]
+                    given["min_voters"] = st["k"]
                 elif op == "rel":
                     q.update_reliability(agent_name(st["id"]), st["ok"])
                 elif op == "rel_all":
@@ -1280,16 +1717,33 @@ class C06(Check):
                     raise ValueError(op)
         if has_real(case):
             self._recorded[json.dumps(case, sort_keys=True)] = scripts
-        if hang:                                              # the instance is still in use by the call that is stuck
-            return {"votes": votes, "vote_steps": vote_steps, "final": [], "stats": [0, 0, 0], "scripts": scripts,
-                    "kept": 0, "hang": True}
+        if state["hang"]:                                     # the instance is still in use by the call that is stuck
+            return {"votes": votes, "vote_steps": vote_steps, "final": [], "stats": [[0, 0, 0]], "scripts": scripts,
+                    "kept": 0, "hang": True, "copies": copies, "rows": rows}
+        q = objs[0]
         final = [[int(p.agent.name.split("_")[1]), p.votes_cast, p.correct_votes,
                   grid30(p.reliability_score), grid30(p.weight)] for p in q.colony]
+        stats = []
         with self._quiet(sink):
-            gs = q.get_statistics()
-        stats = [gs["total_votes"], gs["quorums_reached"], gs["quorums_failed"]]
+            for o in objs:
+                gs = o.get_statistics()
+                stats.append([gs["total_votes"], gs["quorums_reached"], gs["quorums_failed"]])
         return {"votes": votes, "vote_steps": vote_steps, "final": final, "stats": stats, "scripts": scripts,
-                "kept": len(q.get_vote_history(10 ** 6))}
+                "kept": len(q.get_vote_history(10 ** 6)), "copies": copies, "rows": rows}
+
+    @staticmethod
+    def _copy_of(obj, deep):
+        """copy.copy(obj) / copy.deepcopy(obj), or None when that raises (half-built objects that a failed deep copy
+        leaves behind may complain from their __del__: not reported)."""
+        keep = sys.unraisablehook
+        sys.unraisablehook = lambda *a: None
+        try:
+            try:
+                return (copy.deepcopy if deep else copy.copy)(obj)
+            except Exception:
+                return None
+        finally:
+            sys.unraisablehook = keep
 
     @staticmethod
     def _peek(q, st):
@@ -1320,6 +1774,8 @@ class C06(Check):
 
     def _near(self, case):
         """Some vote of the history is within rounding distance of its decision boundary."""
+        if case.get("x"):
+            return x_skip(case)
         if "steps" not in case:
             return skip_for_rounding(case)
         d = self._drive(case)
@@ -1330,10 +1786,16 @@ class C06(Check):
     def run_impl(self, case):
         if case.get("real_agents_starved"):
             return [[0]], {"skip": True}
+        if case.get("x"):
+            return self._run_x(case)
         kept = self._fresh.pop(id(case), None)
         d = kept[1] if kept is not None and kept[0] is case else self._drive(case)
         obs = []
-        for _snap, t in d["votes"]:
+        for row in d["rows"]:
+            if row[0] == "copy":
+                obs.append([-8, row[1], row[2]])
+                continue
+            _snap, t = d["votes"][row[1]]
             if "hang" in t:
                 obs.append([-999])
                 continue
@@ -1341,7 +1803,7 @@ class C06(Check):
                 obs.append([-3])
                 continue
             if "raised" in t:
-                obs.append([-1])
+                obs.append([-1 if t["raised"] == "ZeroDivisionError" else -12])
             else:
                 obs.append([2 if t["end"] == "callback-raised" else 1, int(t["reached"]), VT[t["decision"]], t["total"],
                             t["permit"], t["block"], t["abstain"], len(t["votes"])])
@@ -1351,8 +1813,159 @@ class C06(Check):
             obs.append([-4] + ([1 if which == "reached" else 2 for which, _r in t["callbacks"]] or [0]))
         obs.append([-2, len(d["final"])])
         obs += d["final"]
-        obs.append([-5] + d["stats"])
+        obs += [[-5] + st for st in d["stats"]]
         return compress(obs), d
+
+    # ------------------------------------------------------------------ numbers that are not finite
+    def _drive_x(self, case):
+        """ONE run_vote on a fresh QuorumSensing / EmergencyQuorum whose threshold, member weights / reliabilities and
+        payload confidences may be nan / inf / -inf.  -> {"x": True, "result": report | {"raised": name}, "cast": [...],
+        "stats": [...]}"""
+        from operon_ai.topology import quorum as Q
+        from operon_ai.state.metabolism import ATP_Store
+        vs = case["voters"]
+        budget = ATP_Store(budget=1000, silent=True)
+        thr = None if case["thr"] is None else xfloat(case["thr"])
+        with self._quiet(io.StringIO()):
+            if case.get("emergency"):
+                q = Q.EmergencyQuorum(len(vs), budget, silent=True, **({} if thr is None else {"emergency_threshold": thr}))
+            else:
+                q = Q.QuorumSensing(len(vs), budget, strategy=Q.VotingStrategy(case["strategy"]), threshold=thr,
+                                    min_voters=case["min_voters"], silent=True)
+            for p, v in zip(q.colony, vs):
+                c = v["c"]
+                if c is not None and (v.get("as_float") or not isinstance(c, str)):
+                    c = xfloat(c)                             # otherwise the spelling goes into the payload as it is
+                p.agent = _Stub(p.agent.name, v["act"], c)
+                p.weight, p.reliability_score = xfloat(v["w"]), xfloat(v["rel"])
+
+            def report(r):
+                return {"reached": bool(r.reached), "decision": r.decision.value, "total": r.total_votes,
+                        "permit": r.permit_votes, "block": r.block_votes, "abstain": r.abstain_votes,
+                        "votes": [(v.vote_type.value, xcls(v.weight), xcls(v.confidence)) for v in r.votes]}
+            try:
+                t = report(q.run_vote("proposal"))
+            except Exception as e:              # noqa: reported and judged
+                t = {"raised": type(e).__name__}
+            hist = q.get_vote_history(1)
+            if hist:
+                t["recorded"] = report(hist[-1])
+            gs = q.get_statistics()
+        return {"x": True, "result": t, "cast": [p.votes_cast for p in q.colony],
+                "stats": [gs["total_votes"], gs["quorums_reached"], gs["quorums_failed"]]}
+
+    def _run_x(self, case):
+        d = self._drive_x(case)
+        t = d["result"]
+        if "raised" in t:
+            obs = [[{"ZeroDivisionError": -1, "ValueError": -10, "OverflowError": -11}.get(t["raised"], -12)]]
+        else:
+            obs = [[1, int(t["reached"]), VT[t["decision"]], t["total"], t["permit"], t["block"], t["abstain"], len(t["votes"])]]
+            obs += [[VT[k]] + xq_obs(w) + xq_obs(c) for (k, w, c) in t["votes"]]
+        obs.append([-2, len(d["cast"])])
+        obs += [[k] for k in d["cast"]]
+        obs.append([-5] + d["stats"])
+        return obs, d
+
+    def _coq_x(self, case):
+        strat = "ThresholdCount" if case.get("emergency") else COQ_STRAT[case["strategy"]]
+        thr = case["thr"]
+        if case.get("emergency") and thr is None:
+            thr = 0.3
+        cfg = f"mkXConfig {strat} {'None' if thr is None else '(Some ' + coq_xq(thr) + ')'} {cz(1 if case.get('emergency') else case['min_voters'])}"
+        voters = []
+        for v in case["voters"]:
+            if v["act"] in FAILED:
+                beh = "XFailed"
+            else:
+                beh = f"(XActed {COQ_ACT[v['act']]} {'None' if v['c'] is None else '(Some ' + coq_xq(v['c']) + ')'})"
+            voters.append(f"mkXVoter {beh} {coq_xq(v['w'])} {coq_xq(v['rel'])}")
+        return "CNonfinite " + ctuple(f"({cfg})", clist(voters))
+
+    @staticmethod
+    def x_in_range(case):
+        """Weights, reliabilities, confidences, the threshold: none is negative (nan and +inf are not negative)."""
+        def ok(v):
+            c = xcls(v)
+            return c in ("nan", "inf") if isinstance(c, str) else c >= 0
+        return (case["thr"] is None or ok(case["thr"])) and \
+            all(ok(v["w"]) and ok(v["rel"]) and (v["c"] is None or v["act"] in FAILED or ok(v["c"])) for v in case["voters"])
+
+    def monitor_x(self, case, trace):
+        """The property on one run_vote whose inputs may be nan / inf.  Demanded of EVERY report of the vote (the returned
+        result, the entry added to get_vote_history()): the counts are those of the ballots cast, failed voters are
+        zero-confidence abstentions, reached <=> PERMIT; with no negative number among the inputs: a ballot without a
+        permit vote is never PERMIT, fewer than min_voters permit/block ballots are never PERMIT (ABSTAIN), any block
+        defeats UNANIMOUS, and the strategies that count heads (MAJORITY, SUPERMAJORITY, UNANIMOUS, THRESHOLD) decide by
+        their stated criterion whenever their threshold is finite - weights and confidences, finite or not, are not
+        part of it.  Nothing else is demanded of a vote whose deciding quantity is not a finite number."""
+        t = trace["result"]
+        if not nonfinite_numbers(case):
+            for r, where in ((t, ""), (t.get("recorded"), "entry added to get_vote_history(): ")):
+                if r is not None:
+                    v = self.monitor_vote(case, r, False)
+                    if v is not None:
+                        v.what = where + v.what
+                        return v
+            return None
+        bl = x_ballot(case)
+        n = len(bl)
+        kinds = [b[0] for b in bl]
+        np_, nb, na = kinds.count("P"), kinds.count("B"), kinds.count("A")
+        strat = "threshold" if case.get("emergency") else case["strategy"]
+        mv = 1 if case.get("emergency") else case["min_voters"]
+        thr_fin = is_fin(case["thr"])
+        if "raised" in t:
+            if t["raised"] == "ZeroDivisionError" and n == 0 and strat == "threshold" and mv <= 0:
+                return None
+            # a head-count that is not a number: the call reports nothing at all (so nothing wrong)
+            if t["raised"] in ("ValueError", "OverflowError") and strat == "threshold" and not thr_fin and np_ + nb >= mv:
+                return None
+            return Violation("C06/raises", f"run_vote raised {t['raised']}")
+        for r, where in ((t, ""), (t.get("recorded"), "entry added to get_vote_history(): ")):
+            if r is None:
+                continue
+            v = self._monitor_x_report(case, r, bl, strat, mv, thr_fin)
+            if v is not None:
+                v.what = where + v.what
+                return v
+        return None
+
+    def _monitor_x_report(self, case, r, bl, strat, mv, thr_fin):
+        n = len(bl)
+        kinds = [b[0] for b in bl]
+        np_, nb, na = kinds.count("P"), kinds.count("B"), kinds.count("A")
+        permit = r["decision"] == "permit"
+        if (r["total"], r["permit"], r["block"], r["abstain"], len(r["votes"])) != (n, np_, nb, na, n):
+            return Violation("C06/counts", f"reported total/permit/block/abstain/len(votes) = "
+                             f"{(r['total'], r['permit'], r['block'], r['abstain'], len(r['votes']))}, ballots cast {(n, np_, nb, na, n)}")
+        for (k, _w, _c, failed), (vk, _vw, vc) in zip(bl, r["votes"]):
+            if VT[vk] != KCODE[k]:
+                return Violation("C06/counts", f"a voter who cast {k} is recorded as {vk}")
+            if failed and (vk != "abstain" or vc != 0):
+                return Violation("C06/failed-not-abstain", f"a failed voter is recorded as {vk} with confidence {vc}")
+        if r["reached"] != permit:
+            return Violation("C06/reached-decision-mismatch", f"reached={r['reached']} but decision={r['decision']}")
+        if not self.x_in_range(case):
+            return None
+        special = sorted({str(xcls(x)) for v in case["voters"] for x in (v["w"], v["rel"], v["c"]) if x is not None and not is_fin(x)}
+                         | ({str(xcls(case["thr"]))} if not thr_fin else set()))
+        tag = f" (inputs that are not finite: {', '.join(special)}; threshold {case['thr']})"
+        if np_ == 0 and permit:
+            return Violation("C06/permit-without-permit-vote", f"{strat}: PERMIT on a ballot with no permit vote ({kinds}){tag}")
+        if np_ + nb < mv and (permit or r["decision"] != "abstain"):
+            return Violation("C06/criterion", f"{strat}: decision {r['decision']} with {np_ + nb} permit/block ballot(s), min_voters {mv}{tag}")
+        if strat == "unanimous" and nb > 0 and permit:
+            return Violation("C06/unanimous-with-block", f"UNANIMOUS reached PERMIT with {nb} block vote(s){tag}")
+        if strat in ("majority", "supermajority", "unanimous", "threshold") and thr_fin:
+            plain = neutral(case)
+            if in_range(plain):
+                verdict, margin, exact = criterion(plain)
+                near = margin is not None and (margin < EPS and not (margin == 0 and exact))
+                if not near and verdict in ("permit", "block", "gate") and (verdict == "permit") != permit:
+                    return Violation("C06/criterion", f"{strat}: decision {r['decision']} but the stated criterion (it counts heads: "
+                                     f"{np_} permit, {nb} block of {n}) says {verdict}{tag}")
+        return None
 
     # ------------------------------------------------------------------ model input
     @staticmethod
@@ -1364,16 +1977,18 @@ class C06(Check):
 
     def coq_case(self, case):
         if case.get("real_agents_starved"):
-            return "(mkConfig Majority None 1, true, 30, [], [])"
+            return "CWorld (mkConfig Majority None 1, true, 30, [], [])"
+        if case.get("x"):
+            return self._coq_x(case)
         if case.get("emergency"):
             cfg = f"emergency_cfg {cq(Fraction(0.3 if case['thr'] is None else case['thr']))}"
         else:
             thr = "None" if case["thr"] is None else f"(Some {cq(Fraction(case['thr']))})"
             cfg = f"mkConfig {COQ_STRAT[case['strategy']]} {thr} {cz(case['min_voters'])}"
         ws = clist([ctuple(cq(Fraction(v["w"])), cq(Fraction(v["rel"]))) for v in case["voters"]])
-        ops = []
+        ops = []                                              # (object index | None, term)
         if case.get("callbacks"):                             # constructor arguments = the first assignment
-            ops.append(f"OSetCallbacks {COQ_CB[case['callbacks'].get('reached')]} {COQ_CB[case['callbacks'].get('failed')]}")
+            ops.append((0, f"OSetCallbacks {COQ_CB[case['callbacks'].get('reached')]} {COQ_CB[case['callbacks'].get('failed')]}"))
         # the answers of REAL agents are inputs of the model (the agents are the environment of the quorum): they are
         # the ones recorded while the implementation ran this very case
         rec = None
@@ -1384,10 +1999,14 @@ class C06(Check):
             rec = self._recorded[key]
         for si, st in enumerate(steps_of(case)):
             op = st["op"]
+            on = int(st.get("on", 0))
             if op == "peek":
                 continue                                      # read-only accessors: no operation of the model
+            if op == "copy":
+                ops.append((None, f"{'WDeepCopy' if st.get('deep') else 'WCopy'} {int(st.get('of', 0))}%nat"))
+                continue
             if op == "timeout":
-                ops.append(f"TSetTimeout {cq(Fraction(st['t']))}")
+                ops.append((on, f"TSetTimeout {cq(Fraction(st['t']))}"))
                 continue
             if op in ("vote", "interrupt") and any(b.get("delay") for b in st["script"]):
                 # a timed call: how long every member's agent needs (members beyond the list answer at once)
@@ -1395,59 +2014,68 @@ class C06(Check):
                 term = (f"(script_of {clist([self._coq_beh(b) for b in sc])}) "
                         f"(delays_of {clist([cq(Fraction(b.get('delay') or 0)) for b in sc])})")
                 if op == "vote":
-                    ops += [f"TVote {term}"] * int(st.get("times", 1))
+                    ops += [(on, f"TVote {term}")] * int(st.get("times", 1))
                 else:
-                    ops.append(f"TInterrupted {term} {int(st['k'])}%nat")
+                    ops.append((on, f"TInterrupted {term} {int(st['k'])}%nat"))
                 continue
             if op == "vote":
                 times = int(st.get("times", 1))
                 if rec is not None:
                     for k in range(times):
-                        ops.append(f"OVote (script_of {clist([self._coq_beh(b) for b in rec.get((si, k), st['script'])])})")
+                        ops.append((on, f"OVote (script_of {clist([self._coq_beh(b) for b in rec.get((si, k), st['script'])])})"))
                 elif times != 1:
-                    ops.append(f"REPEAT {times}%nat (OVote (script_of {clist([self._coq_beh(b) for b in st['script']])}))")
+                    ops.append((on, f"REPEAT {times}%nat (OVote (script_of {clist([self._coq_beh(b) for b in st['script']])}))"))
                 else:
-                    ops.append(f"OVote (script_of {clist([self._coq_beh(b) for b in st['script']])})")
+                    ops.append((on, f"OVote (script_of {clist([self._coq_beh(b) for b in st['script']])})"))
             elif op == "interrupt":
                 sc = rec.get((si, 0), st["script"]) if rec is not None else st["script"]
                 sc = [b if b["act"] != "INTERRUPT" else {"act": "RAISE", "c": None} for b in sc]
-                ops.append(f"OInterrupted (script_of {clist([self._coq_beh(b) for b in sc])}) {int(st['k'])}%nat")
+                ops.append((on, f"OInterrupted (script_of {clist([self._coq_beh(b) for b in sc])}) {int(st['k'])}%nat"))
             elif op == "callbacks":
-                ops.append(f"OSetCallbacks {COQ_CB[st.get('reached')]} {COQ_CB[st.get('failed')]}")
+                ops.append((on, f"OSetCallbacks {COQ_CB[st.get('reached')]} {COQ_CB[st.get('failed')]}"))
             elif op == "add":
-                ops.append(f"OAdd {cz(st['id'])} {cq(Fraction(st['w']))}")
+                ops.append((on, f"OAdd {cz(st['id'])} {cq(Fraction(st['w']))}"))
             elif op == "remove":
-                ops.append(f"ORemove {cz(st['id'])}")
+                ops.append((on, f"ORemove {cz(st['id'])}"))
             elif op == "weight":
-                ops.append(f"OSetWeight {cz(st['id'])} {cq(Fraction(st['w']))}")
+                ops.append((on, f"OSetWeight {cz(st['id'])} {cq(Fraction(st['w']))}"))
             elif op == "strategy":
                 thr = "None" if st["thr"] is None else f"(Some {cq(Fraction(st['thr']))})"
-                ops.append(f"OSetStrategy {COQ_STRAT[st['strategy']]} {thr}")
+                ops.append((on, f"OSetStrategy {COQ_STRAT[st['strategy']]} {thr}"))
             elif op == "min_voters":
-                ops.append(f"OSetMinVoters {cz(st['k'])}")
+                ops.append((on, f"OSetMinVoters {cz(st['k'])}"))
             elif op == "rel":
-                ops.append(f"OUpdateRel {cz(st['id'])} {'true' if st['ok'] else 'false'}")
+                ops.append((on, f"OUpdateRel {cz(st['id'])} {'true' if st['ok'] else 'false'}"))
             elif op == "rel_all":
-                ops.append(f"OUpdateAll {st['decision'].capitalize()}")
+                ops.append((on, f"OUpdateAll {st['decision'].capitalize()}"))
             else:
                 raise ValueError(op)
         # k consecutive identical run_vote calls are written `repeat op k` (List.repeat), not k times
-        # operations without a clock are wrapped: TOp (...)
+        # operations without a clock are wrapped: TOp (...); operations are addressed to an object: WOn i (...)
+        # (a history on the constructed object alone is written on0 [...], i.e. map (WOn 0))
+        single = all(on == 0 for on, _o in ops)
+
+        def top(o):
+            return o if o.startswith(("TVote ", "TInterrupted ", "TSetTimeout ")) else f"TOp ({o})"
+
         parts, cur = [], []
-        for o in ops:
+        for on, o in ops:
             if o.startswith("REPEAT "):
                 if cur:
                     parts.append(clist(cur))
                     cur = []
                 n, term = o[len("REPEAT "):].split(" ", 1)
-                parts.append(f"repeat (TOp {term}) {n}")
+                parts.append(f"repeat (TOp {term}) {n}" if single else f"repeat (WOn {on}%nat (TOp {term})) {n}")
+            elif on is None:
+                cur.append(o)
             else:
-                cur.append(o if o.startswith(("TVote ", "TInterrupted ", "TSetTimeout ")) else f"TOp ({o})")
+                cur.append(top(o) if single else f"WOn {on}%nat ({top(o)})")
         if cur or not parts:
             parts.append(clist(cur))
         timeout = case.get("timeout", 5.0 if case.get("emergency") else 30.0)
-        return ctuple(cfg, "true" if case.get("tracking", True) else "false", cq(Fraction(timeout)), ws,
-                      "(" + " ++ ".join(parts) + ")")
+        body = "(" + " ++ ".join(parts) + ")"
+        return "CWorld " + ctuple(cfg, "true" if case.get("tracking", True) else "false", cq(Fraction(timeout)), ws,
+                                  f"(on0 {body})" if single else body)
 
     # ------------------------------------------------------------------ the property, on the implementation
     def monitor(self, case, obs, trace, meta=True):
@@ -1455,6 +2083,11 @@ class C06(Check):
         instance has AT THAT VOTE (read from its public state just before run_vote)."""
         if trace.get("skip"):
             return None
+        if trace.get("x"):
+            v = self.monitor_x(case, trace)
+            if v is not None:
+                v.case = case
+            return v
         if trace.get("harness_error") or (trace.get("hang") and "votes" not in trace):
             return Violation("C06/raises", f"run_vote did not return normally: {trace}")
         nv = len(trace["votes"])
@@ -1477,6 +2110,8 @@ class C06(Check):
             if v is not None:
                 if nv > 1 or "steps" in case:
                     cfg = f"{snap['strategy']}, threshold {snap['thr']}, min_voters {snap['min_voters']}, {len(snap['voters'])} voters"
+                    if snap.get("object"):
+                        cfg = f"asked: the {snap['object']}, configured by its caller as " + cfg
                     late = [i for i, x in enumerate(snap["voters"]) if x["act"] == "LATE"]
                     if late:
                         cfg += f"; the agent(s) of voter(s) {late} had not answered when the call returned: no ballot, must be zero-confidence abstentions"
@@ -1535,7 +2170,7 @@ class C06(Check):
         mv = 1 if case.get("emergency") else case["min_voters"]
         if "raised" in trace:
             # the only raise the code has: THRESHOLD over an empty colony that passed the min_voters gate
-            if n == 0 and strat == "threshold" and mv <= 0:
+            if n == 0 and strat == "threshold" and mv <= 0 and trace["raised"] == "ZeroDivisionError":
                 return None
             return Violation("C06/raises", f"run_vote raised {trace['raised']}")
         permit = trace["decision"] == "permit"
@@ -1622,6 +2257,8 @@ class C06(Check):
     def nontrivial(self, case, obs, trace):
         if case.get("real_agents_starved"):
             return True
+        if case.get("x"):
+            return nonfinite_numbers(case) or len({KIND[v["act"]] for v in case["voters"]}) >= 2
         if len(steps_of(case)) > 1:
             return True
         if not trace.get("votes"):
@@ -1633,6 +2270,27 @@ class C06(Check):
     def classify(self, case, obs, trace):
         if case.get("real_agents_starved"):
             return ["real-agents"]
+        if case.get("x"):
+            t = trace.get("result", {})
+            ks = ["numbers-may-be-nonfinite", "strategy=" + ("threshold" if case.get("emergency") else case["strategy"]),
+                  f"voters={len(case['voters'])}"]
+            if case.get("emergency"):
+                ks.append("class=EmergencyQuorum")
+            if not is_fin(case["thr"]):
+                ks.append("threshold=" + xcls(case["thr"]))
+            for v in case["voters"]:
+                for f, name in (("w", "weight"), ("rel", "reliability"), ("c", "confidence")):
+                    if v[f] is not None and not is_fin(v[f]):
+                        ks.append(f"{name}={xcls(v[f])}" + ("-of-a-failed-or-passive-voter" if KIND[v["act"]] not in "PB" else ""))
+                        if f == "c":
+                            ks.append("confidence-handed-over-as-" + ("float" if v.get("as_float") or not isinstance(v["c"], str) else "string"))
+            if not nonfinite_numbers(case):
+                ks.append("all-numbers-finite")
+            ks.append("outcome=" + ("raise-" + t["raised"] if "raised" in t else (t.get("decision", "?") if t.get("decision") != "abstain" else "gate")))
+            if not any(KIND[v["act"]] == "P" and v["act"] not in FAILED for v in case["voters"]):
+                ks.append("no-permit-vote")
+            ks.append("in-range" if self.x_in_range(case) else "malformed")
+            return ks
         ks = [f"initial-voters={len(case['voters'])}"]
         if case.get("emergency"):
             ks.append("class=EmergencyQuorum")
@@ -1641,7 +2299,9 @@ class C06(Check):
         ks.append(f"history-votes={nvotes}")
         for st in steps:
             if st["op"] != "vote":
-                ks.append("op=" + st["op"])
+                ks.append("op=" + st["op"] + ("-deep" if st.get("deep") else ""))
+            if st.get("on"):
+                ks.append("operation-on-a-copy=" + st["op"])
         if case.get("callbacks"):
             ks.append("callbacks-at-construction")
         if case.get("verbose"):
@@ -1698,6 +2358,11 @@ class C06(Check):
                 ks.append("callback-invoked=" + which)
             ks.append("strategy=" + snap["strategy"])
             ks.append(f"voters={len(snap['voters'])}")
+            if snap.get("object"):
+                ks.append("vote-on-a-copy")
+                ks.append("vote-on-a-copy-min_voters=" + ("default" if snap["min_voters"] == 1 else "other"))
+                if "raised" not in t and t["decision"] == "abstain":
+                    ks.append("vote-on-a-copy-below-min_voters")
             sizes.append(len(snap["voters"]))
             if "raised" in t:
                 ks.append("outcome=raise")
